@@ -727,7 +727,10 @@ fn main() {
          default or custom 6-bit palette, blink or iCE, raw or compressed, 512-character mode with a font page per cell; BIN even widths 2..=510 with SAUCE; ADF 80 columns iCE 8x16; \
          IDF 1..=80 columns iCE 8x16 incl. (0x01,0x00) marker cells; Tundra 1..=1000 columns with SAUCE, 1..=24 arbitrary RGB colours, characters 1..=6 in a third of the cases); \
          heights 1..=200 below/at/above 25; cells = cyclic run list over the full byte range; lossles_output = true; SAUCE trailer (where written): record only, or with 1 / 2 / 255 comment lines, \
-         or with title/author/group at maximal length, or both; 40% of the buffers get a storage shape of icyv::shape::perturb (extra lines, longer rows, larger layer, other terminal size, ...) that leaves the picture unchanged. Oracle per case: reference decode of the saved bytes = model; \
+         or with title/author/group at maximal length, or both; 40% of the buffers get a storage shape of icyv::shape::perturb (extra lines, longer rows, larger layer, other terminal size, ...) that leaves the picture unchanged; \
+         half of the buffers carry an attached SAUCE record whose technical fields (iCE flag, letter spacing, aspect ratio, font name, size, data/file type) are drawn independently of the buffer (a stale record: \
+         only title/author/group/comments/letter spacing/aspect ratio may travel from it, never ice mode, size or font); the model fonts sit in arbitrary font-table slots 0..=42 (either order, slot 0 always holds a font, \
+         up to two further slots hold unused fonts); a bright foreground is stored as fg 8..=15, as fg-8 + BOLD, or as both (all shown alike). Oracle per case: reference decode of the saved bytes = model; \
          load(save(buffer)) = buffer (size, per cell char / shown fg RGB / bg RGB / blink / glyph table of its font page, ice_mode, palette); load(save(load(file))) shows the same picture. \
          Parts *_fuzz: a saved small buffer mutated by 1..=4 byte/word/insert/delete/truncate/strip-SAUCE/append edits; files the loader rejects (or panics on: C02) are discarded; accepted files \
          are re-saved and re-loaded and must show the same picture. Non-trivial (generated): height != 25 or width != 80 or two font pages used or a character < 0x20 present; \
